@@ -116,7 +116,7 @@ SeqSign(f) == LET pos == \E i \in DOMAIN f : f[i] > 0
 \* month given by number or by code "Mnn" (only one of the two is interpreted here; both -> nothing claimed)
 CodeMonth(c) == CHOOSE m \in 0..99 : MonthCodeOf(m) = c
 PartialSimple(p) == ~(HasKey(p, "month") /\ HasKey(p, "month_code")) /\ ~HasKey(p, "era") /\ ~HasKey(p, "era_year") /\ IsIso(p)
-                    /\ (HasKey(p, "month_code") => \E m \in 1..12 : MonthCodeOf(m) = p.month_code)
+                    /\ (HasKey(p, "month_code") => \E m \in 1..12 : MonthCodeOf(m) = p.month_code)     \* plain ISO month codes only
 PMonth(p, dflt) == IF HasKey(p, "month") THEN p.month ELSE IF HasKey(p, "month_code") THEN CodeMonth(p.month_code) ELSE dflt
 MergeDate(base, p) == Date(GetOr(p, "year", base.y), PMonth(p, base.m), GetOr(p, "day", base.d))
 PDateEmpty(p) == ~(\E k \in {"year", "month", "month_code", "day", "era", "era_year"} : HasKey(p, k))
@@ -451,9 +451,14 @@ Expected(row, a) ==
             [] ty = "cal" -> CalExpected(row.ret, a)
             [] OTHER -> Same
 
+\* well-formed month codes: "Mnn" and "MnnL"
+WellFormedCode(c) == \E m \in 0..99 : c = MonthCodeOf(m) \/ c = MonthCodeOf(m) \o "L"
+PartialOf(a) == IF HasKey(a, "partial") THEN (IF HasKey(a.partial, "date") THEN a.partial.date ELSE a.partial) ELSE NoArgs
+MalformedCode(a) == LET p == PartialOf(a) IN HasKey(p, "month_code") /\ ~WellFormedCode(p.month_code)
 \* class label of a call: the method-table row, refined where the spec itself distinguishes input classes
 ClsOf(row, a) ==
-  row.name \o (IF row.name = "capi.Instant.epoch_nanoseconds" /\ NegBelow2p64(a.recv) THEN "/negative-above-minus-2^64" ELSE "")
+  row.name \o (IF row.name = "capi.Instant.epoch_nanoseconds" /\ NegBelow2p64(a.recv) THEN "/negative-above-minus-2^64"
+               ELSE IF MalformedCode(a) THEN "/malformed-month-code" ELSE "")
 
 (* ------------------------------------------------------------ observability *)
 \* numeric accessor values of a receiver, by field name: a swapped accessor is observable on a receiver
